@@ -29,6 +29,10 @@ for cpu, (cls, incs, wf, unw, tier) in SIMS.items():
         GROUPS.append(Group(name="C15/step_%s.pc_at_top" % cpu, unity="C15/u_sim.cpp", entry="h_sim", c_sources=["common/st_fmt.c"],
                             functions=[("%s::run (single step) and its callees" % cls, "simulate/%s.cpp" % cpu, "harness; program counter within 16 bytes of the top of the address space")],
                             defines=defs + ["PC_AT_TOP"], unwind=unw, checks=CH, timeout=900, tier=tier))
+for w in (8, 16, 24):
+    GROUPS.append(Group(name="C15/stm8.indexed_operand_%d" % w, unity="C15/u_stm8_ops.cpp", entry="h_stm8_ops", c_sources=["common/st_fmt.c"],
+                        functions=[("SimulateStm8::execute_op_offset%d_index_x / _y" % w, "simulate/stm8.cpp", "harness; arbitrary object state, lazy memory")] + ([("SimulateStm8::execute_op_common", "simulate/stm8.cpp", "real callee")] if w != 24 else []),
+                        defines=["WIDTH=%d" % w], unwind=40, checks=CH, timeout=900))
 LEVEL = "proof"
 TRUSTED = ["Memory replaced by the lazy-memory contract (byte map with symbolic initial contents)",
            "rewrite T5 (no dynamic dispatch): sound because the only object has a statically known most-derived type"]
